@@ -42,7 +42,7 @@ CLAIMED = {
          "uu and size no-panic are covered by their own properties' theorems where proved (C05, C12) and by the panic-capturing harness; message does not echo the input, allocation and time bounds, native fuzzing (thorough) — implementation only"),
  "C19": ("version4 for all draws, variant1 for 63-bit draws (as rand.Int63 yields; variant_needs_63bit shows the hypothesis is needed), free_bits_onto with explicit witnesses (all 122 remaining bits independent), fixed_bits, free_bit_flips — over the generated BitVec expressions of RandomID; protocol: mutual_exclusion, calls_get_consecutive_pairs, completed_calls_disjoint for every schedule of any number of threads (invariant proof over a small-step model), generator_only_under_mutex (generated structure fact), and the counter-model without the mutex",
          "the bit lemmas are kernel-only (bit extensionality, no bv_decide); data-race freedom in the Go memory model, sync.Mutex itself, and 'no duplicate within a run' (a property of math/rand's stream) are checked on the implementation only: the concurrent oracles run a second time under Go's race detector (go build -race), and concurrent draws through the verif hook must consume 2N positions as N consecutive pairs"),
- "C20": ("decision logic of the six helpers over scripted behaviours: per-case reported ⇔ ¬satisfied outside the K1 shape, list-level iff (reports_iff_partial), other direction ignored, custom_helper_asked (argument order and use of New pinned), marshal_ignores_helper, FailNow ⇔ type lacks interface ∧ cases ≠ [], a verdict per case; the full statement is proved FALSE (errorMatch_silent / full_statement_is_false) — that is known finding K1",
+ "C20": ("decision logic of the six helpers over scripted behaviours: per-case reported ⇔ ¬satisfied outside the K1 shape, list-level iff (reports_iff_partial), other direction ignored, custom_helper_asked (argument order and use of New pinned), marshal_ignores_helper, hooks that edit the case they are handed (reportsX_iff_partial, caseX_reported_iff, hook_constraint_ignored, runX_no_edits), FailNow ⇔ type lacks interface ∧ cases ≠ [], a verdict per case; the full statement is proved FALSE (errorMatch_silent / full_statement_is_false) — that is known finding K1",
          "testify/assert behaviour and reflection (castToFunc, helperNew) — modelled, validated by correspondence on generated scripted types; a custom TypeHelper is modelled as a scripted family (HelperBeh: New's start value, emptiness and asymmetric equality verdicts), theorems quantify over it"),
  "C15": ("construction error ⇔ both bounds ∧ from after to; membership ⇔ inclusive day-number interval for the five filter shapes",
          "caller-variable mutation after construction (copy semantics; harness mutates the variables on every filter op)"),
